@@ -29,11 +29,11 @@ static BInt parse(const char *s)
 	}
 	while (nd > 1 && d[nd - 1] == 0) nd--;
 	{
-		/* bintFrPlacevS packs in place for odd counts: give it a private copy */
-		U16 *copy = (U16 *) stoAlloc(OB_Other, sizeof(U16) * (nd + 4));
+		/* bintFrPlacevS may pack in place: give it a private copy of exactly nd digits (no slack: under ASan a write past the
+		 * digits is a report; the unchanged tree wrote one digit too far for odd counts, fixed in the repository) */
+		U16 *copy = (U16 *) stoAlloc(OB_Other, sizeof(U16) * nd);
 		BInt r;
 		memcpy(copy, d, sizeof(U16) * nd);
-		copy[nd] = copy[nd + 1] = 0;
 		r = bintFrPlacevS(neg, nd, copy);
 		return r;
 	}
